@@ -68,7 +68,8 @@ PROFILES = [
                     safe_text=0.1, comment_dashes=True, attr_ws=True, text_cr=True)),
 ]
 DOCTYPE_OPTS = [None, None, None, ['name', 'html'], ['name', 'xhtml-strict'], ['name', 'HTML5'],
-                ['tuple', 'html', None, 'about:legacy-compat'], ['tuple', 'x"<y', 'p&ub', None]]
+                ['tuple', 'html', None, 'about:legacy-compat'], ['tuple', 'x"<y', 'p&ub', None],
+                ['tuple', 'html', None, 'sys"tem.dtd']]
 
 
 def pick_profile(rng):
